@@ -19,6 +19,15 @@
 (* odd depth and belong to their innermost containing curve; twice the     *)
 (* area by the shoelace formula; squared edge lengths are perfect squares  *)
 (* for the rectilinear and 3-4-5 families, so length is an integer.        *)
+(*                                                                         *)
+(* Drawings with arc segments (records of kind "arc") have irrational      *)
+(* measures.  Each curve is then given by its lattice skeleton (the cycle  *)
+(* of lattice points the boundary passes through: end and control points   *)
+(* of the arcs, vertices of the straight parts) and a flag saying whether  *)
+(* it has curved parts.  Nesting is a function of the skeletons; polygonal *)
+(* curves must come back exactly; the measures must stand in the stated    *)
+(* fixed-point relation to the reading of the canonical presentation of    *)
+(* the same drawing (ArcClause).                                           *)
 (***************************************************************************)
 EXTENDS Integers, Sequences, FiniteSets, TLC, Json
 
@@ -74,6 +83,11 @@ MapPt(m, p) == <<m.l[1][1] * p[1] + m.l[1][2] * p[2] + m.t[1], m.l[2][1] * p[1] 
 MapCurve(m, c) == [k \in 1..Len(c) |-> MapPt(m, c[k])]
 MapAll(m, cs) == [k \in 1..Len(cs) |-> MapCurve(m, cs[k])]
 
+\* rezero(): the drawing translated so that the lower left corner of its bounding box is the origin
+MinOf(S) == CHOOSE v \in S : \A w \in S : v <= w
+Coord(cs, a) == UNION {{cs[k][j][a] : j \in 1..Len(cs[k])} : k \in 1..Len(cs)}
+ToOrigin(cs) == MapAll([l |-> <<<<1, 0>>, <<0, 1>>>>, t |-> <<0 - MinOf(Coord(cs, 1)), 0 - MinOf(Coord(cs, 2))>>], cs)
+
 BagOfInts(S) == [n \in {x.n : x \in S} |-> Cardinality({x \in S : x.n = n})]
 
 \* ------------------------------------------------------------------ validator
@@ -83,7 +97,10 @@ BagOfInts(S) == [n \in {x.n : x \in S} |-> Cardinality({x \in S : x.n = n})]
 Clause(c) ==
     LET d == c.obs.den
         scale == [l |-> <<<<d, 0>>, <<0, d>>>>, t |-> <<0, 0>>]
-        cs == MapAll(scale, MapAll(c.m, c.curves))
+        \* c.m2: a second map applied after c.m (identity when the history has one transform)
+        cs0 == MapAll(scale, MapAll(c.m2, MapAll(c.m, c.curves)))
+        \* c.rezero: the history ended with rezero()
+        cs == IF c.rezero THEN ToOrigin(cs0) ELSE cs0
         want == {EdgeSet(cs[k]) : k \in 1..Len(cs)}
         gotPolys == {EdgeSet(Open(c.obs.polys[k])) : k \in 1..Len(c.obs.polys)}
         wantFull == {[ext |-> EdgeSet(cs[s]), ints |-> {EdgeSet(cs[h]) : h \in HolesOf(cs, s)}] : s \in Shells(cs)}
@@ -101,9 +118,50 @@ Clause(c) ==
        ELSE IF c.obs.length # TotalLength(cs) THEN "length"
        ELSE "ok"
 
+\* ------------------------------------------------------------------ drawings with arcs
+\* c.curves: lattice skeletons; c.arcs[k]: curve k has curved parts; c.m, c.m2: integer similarity maps
+\* c.canon: [area_fp, len_fp] reading of the canonical presentation of the drawing (no map),
+\*          area in units of 1e-2, length in units of 1e-3; c.smooth_area_fp: closed form of the smooth region
+\* c.obs: closed, npolys, bodies, polys (the rings of polygons_closed that lie on the lattice),
+\*        full (sequence of [curved, ext, ints (lattice rings), ncurved]), area_fp, len_fp,
+\*        len_ppb (relative residual of the length against k * canonical length, in 1e-9)
+\* c.len_tol_ppb: admitted residual (0: length is not compared, the presentation is not made of arcs)
+Det(m) == Abs(m.l[1][1] * m.l[2][2] - m.l[1][2] * m.l[2][1])
+Bag(f) == [d \in {f[x] : x \in DOMAIN f} |-> Cardinality({x \in DOMAIN f : f[x] = d})]
+ArcClause(c) ==
+    LET cs == MapAll(c.m2, MapAll(c.m, c.curves))
+        k2 == Det(c.m) * Det(c.m2)
+        k == ISqrt(k2)
+        N == Len(cs)
+        straight == {j \in 1..N : ~c.arcs[j]}
+        want == {EdgeSet(cs[j]) : j \in straight}
+        got == {EdgeSet(Open(c.obs.polys[j])) : j \in 1..Len(c.obs.polys)}
+        wantFull == [s \in Shells(cs) |->
+                        [ext |-> IF c.arcs[s] THEN {} ELSE EdgeSet(cs[s]),
+                         ints |-> {EdgeSet(cs[h]) : h \in {h \in HolesOf(cs, s) : ~c.arcs[h]}},
+                         ncurved |-> Cardinality({h \in HolesOf(cs, s) : c.arcs[h]})]]
+        gotFull == [j \in 1..Len(c.obs.full) |->
+                        [ext |-> IF c.obs.full[j].curved THEN {} ELSE EdgeSet(Open(c.obs.full[j].ext)),
+                         ints |-> {EdgeSet(Open(c.obs.full[j].ints[r])) : r \in 1..Len(c.obs.full[j].ints)},
+                         ncurved |-> c.obs.full[j].ncurved]]
+        wantArea == k2 * c.canon.area_fp
+        wantLen == k * c.canon.len_fp
+    IN IF ~c.obs.closed THEN "is_closed"
+       ELSE IF c.obs.npolys # N THEN "polygon_count"
+       ELSE IF Len(c.obs.polys) # Cardinality(straight) \/ got # want THEN "polygons_are_the_curves"
+       ELSE IF Len(c.obs.full) # Cardinality(Shells(cs)) \/ c.obs.bodies # Cardinality(Shells(cs)) THEN "body_count"
+       ELSE IF Bag(gotFull) # Bag(wantFull) THEN "nesting_shells_and_holes"
+       \* the canonical reading itself is the discretised smooth region (0.5 per cent)
+       ELSE IF 200 * Abs(c.canon.area_fp - c.smooth_area_fp) > c.smooth_area_fp THEN "arc_area_far_from_smooth_region"
+       \* area of a discretised arc depends on the split at the 1e-4 level: 2e-3 relative, one unit of rounding
+       ELSE IF 500 * Abs(c.obs.area_fp - wantArea) > wantArea + 500 * (k2 + 1) THEN "arc_area"
+       ELSE IF c.len_tol_ppb > 0 /\ Abs(c.obs.len_fp - wantLen) > k + 1 THEN "arc_length"
+       ELSE IF c.len_tol_ppb > 0 /\ Abs(c.obs.len_ppb) > c.len_tol_ppb THEN "arc_length_fine"
+       ELSE "ok"
+
 Init == i = 1
 Next == i < Len(Cases) /\ i' = i + 1
-Report == LET c == Cases[i]  cl == IF c.exc # "" THEN "raised" ELSE Clause(c)
+Report == LET c == Cases[i]  cl == IF c.exc # "" THEN "raised" ELSE IF c.kind = "arc" THEN ArcClause(c) ELSE Clause(c)
           IN IF cl # "ok" THEN PrintT(<<"REJECT", c.id, cl>>) ELSE TRUE
 \* sanity of the reference on the recorded drawings: nesting is a forest with alternating depth
 RefSane == LET cs == Cases[i].curves IN
